@@ -1215,7 +1215,7 @@ fn gen_for_inspec(rng: &mut Rng, s: &crate::c01_templates::InSpec) -> Value {
                 .map(|_| match s.class {
                     VC::Pos => 0.25 + rng.range_i64(0, 16) as f32 / 4.0,
                     VC::Mask => rng.below(2) as f32,
-                    VC::Normal => rng.range_i64(-24, 24) as f32 / 8.0,
+                    _ => rng.range_i64(-24, 24) as f32 / 8.0,
                 })
                 .collect();
             fvec(&vals, &s.dims)
